@@ -142,6 +142,8 @@ type (
 		streamsToConvert         map[string]*bitmask.LongBitmask
 		pcapProcessorWebhookUrls []string
 		pcapOverIPEndpoints      []*pcapOverIPEndpoint
+		// addresses loaded from the state file whose endpoints are not started yet
+		pcapOverIPEndpointsToStart []string
 
 		pcapOverIPPackets chan pcapOverIPPacket
 		pcapOverIPCmd     chan pcapOverIPCmd
@@ -435,6 +437,10 @@ nextStateFile:
 		cachedKnownPcapData = s.Pcaps
 	}
 
+	for a := range pcapOverIPEndpoints {
+		// a state file written before the endpoints are started must still list them
+		mgr.pcapOverIPEndpointsToStart = append(mgr.pcapOverIPEndpointsToStart, a)
+	}
 	mgr.builder, err = builder.New(pcapDir, indexDir, snapshotDir, cachedKnownPcapData)
 	if err != nil {
 		return nil, err
@@ -461,6 +467,7 @@ nextStateFile:
 		for a := range pcapOverIPEndpoints {
 			mgr.pcapOverIPEndpoints = append(mgr.pcapOverIPEndpoints, mgr.newPcapOverIPEndpoint(ctx, a))
 		}
+		mgr.pcapOverIPEndpointsToStart = nil
 	}
 	return &mgr, nil
 }
@@ -529,6 +536,7 @@ func (mgr *Manager) saveState() error {
 	for _, e := range mgr.pcapOverIPEndpoints {
 		j.PcapOverIPEndpoints = append(j.PcapOverIPEndpoints, e.Address)
 	}
+	j.PcapOverIPEndpoints = append(j.PcapOverIPEndpoints, mgr.pcapOverIPEndpointsToStart...)
 	for n, t := range mgr.tags {
 		j.Tags = append(j.Tags, struct {
 			Name       string
